@@ -2,6 +2,7 @@ package dag
 
 import (
 	"fmt"
+	"strings"
 
 	"github.com/pkg/errors"
 
@@ -318,11 +319,17 @@ func RemoveAll(def Definition, repo repository.ClockedRepo) error {
 		return err
 	}
 	for remote := range remotes {
-		refs, err := repo.ListRefs(fmt.Sprintf("refs/remotes/%s/%s/", remote, def.Namespace))
+		prefix := fmt.Sprintf("refs/remotes/%s/%s/", remote, def.Namespace)
+		refs, err := repo.ListRefs(prefix)
 		if err != nil {
 			return err
 		}
 		for _, ref := range refs {
+			// this is also where git keeps the remote-tracking branch of a branch of the user named
+			// "<namespace>/<something>": only what designates an entity is removed
+			if entity.Id(strings.TrimPrefix(ref, prefix)).Validate() != nil {
+				continue
+			}
 			err = repo.RemoveRef(ref)
 			if err != nil {
 				return err
